@@ -75,3 +75,215 @@ Fixpoint denote (env : senv) (t : ty) (v : val) {struct v} : tv :=
 
 (* the message EncodeObject must produce for a value of struct type sid *)
 Definition encode_spec (env : senv) (sid : N) (v : val) : list N := put (denote env (TStruct sid) v).
+
+(* ------------------------------------------------------------------------ *)
+(* The reference decoder: what a well-formed wire struct means for a
+   destination of a given type.  It works on parsed wire values, so it has no
+   byte-level concerns at all: fields are taken in message order; a field
+   whose id is declared and whose wire code equals the declared one is
+   stored; anything else is skipped (and kept verbatim when the struct has the
+   holder); destination fields the message does not mention are untouched. *)
+
+Inductive ares (A : Type) := AOk (a : A) | AMismatch | AMissing (fid : N) | ABad.
+Arguments AOk {A}. Arguments AMismatch {A}. Arguments AMissing {A}. Arguments ABad {A}.
+
+Definition scalar_of (t : ty) (w : tv) : option val :=
+  match t, w with
+  | TBool, WBool x => Some (VS x)
+  | TI8, WI8 x => Some (VS x)
+  | TI16, WI16 x => Some (VS x)
+  | TI32, WI32 x => Some (VS x)
+  | TI64, WI64 x => Some (VS x)
+  | TDouble, WDbl x => Some (VS x)
+  | TEnum, WI32 x => Some (VS (sext32 x))
+  | _, _ => None
+  end.
+
+(* SetMapIndex on the association-list view *)
+Fixpoint ainsert (kt : ty) (m : list (val * val)) (k v : val) : list (val * val) :=
+  match m with
+  | [] => [(k, v)]
+  | (k', v') :: r => if key_eq kt k' k then (k, v) :: r else (k', v') :: ainsert kt r k v
+  end.
+
+Section AbsorbLoops.
+  Variable ab : ty -> tv -> val -> ares val.   (* value of type t from wire value w, slot content prior *)
+  Variable env : senv.
+
+  Fixpoint ab_elems (e : ty) (ws : list tv) : ares (list val) :=
+    match ws with
+    | [] => AOk []
+    | w :: r =>
+        match ab e w (zero_of env e) with
+        | AOk x => match ab_elems e r with AOk xs => AOk (x :: xs) | er => er end
+        | AMismatch => AMismatch | AMissing i => AMissing i | ABad => ABad
+        end
+    end.
+
+  Fixpoint ab_entries (kt vt : ty) (ws : list (tv * tv)) (acc : list (val * val)) : ares (list (val * val)) :=
+    match ws with
+    | [] => AOk acc
+    | (kw, vw) :: r =>
+        match ab kt kw (zero_of env kt) with
+        | AOk k =>
+            match ab vt vw (zero_of env vt) with
+            | AOk v => ab_entries kt vt r (ainsert kt acc k v)
+            | AMismatch => AMismatch | AMissing i => AMissing i | ABad => ABad
+            end
+        | AMismatch => AMismatch | AMissing i => AMissing i | ABad => ABad
+        end
+    end.
+
+  (* cur: field values; seen: ids stored so far; unk: bytes of the skipped fields *)
+  Fixpoint ab_fields (sd : sdesc) (fs : list (N * tv)) (cur : list val) (seen : list N) (unk : list N)
+    : ares (list val * list N * list N) :=
+    match fs with
+    | [] => AOk (cur, seen, unk)
+    | (id, w) :: r =>
+        match get_field sd id with
+        | Some (i, f) =>
+            if wt (fty f) =? code_of w then
+              match ab (fty f) w (nth i cur (VS 0)) with
+              | AOk v => ab_fields sd r (set_nth cur i v) (id :: seen) unk
+              | AMismatch => AMismatch | AMissing j => AMissing j | ABad => ABad
+              end
+            else ab_fields sd r cur seen (unk ++ put_field (id, w))
+        | None => ab_fields sd r cur seen (unk ++ put_field (id, w))
+        end
+    end.
+End AbsorbLoops.
+
+Fixpoint absorb (env : senv) (t : ty) (w : tv) (prior : val) {struct w} : ares val :=
+  let t0 := deref_ty t in
+  let prior0 := if is_ptr t then zero_of env t0 else prior in
+  let wrap := fun r : ares val => match r with AOk v => AOk (if is_ptr t then VP (Some v) else v) | e => e end in
+  wrap
+    match w with
+    | WStr s => match t0 with TString | TBinary => AOk (VB false s) | _ => ABad end
+    | WList _ ec es =>
+        match t0 with
+        | TList _ e =>
+            if negb (ec =? wt e) then AMismatch
+            else match ab_elems (absorb env) env e es with
+                 | AOk xs => AOk (VL (Some xs))
+                 | AMismatch => AMismatch | AMissing i => AMissing i | ABad => ABad
+                 end
+        | _ => ABad
+        end
+    | WMap kc vc es =>
+        match t0 with
+        | TMap kt vt =>
+            if negb ((kc =? wt kt) && (vc =? wt vt)) then AMismatch
+            else match ab_entries (absorb env) env kt vt es [] with
+                 | AOk m => AOk (VM (Some m))
+                 | AMismatch => AMismatch | AMissing i => AMissing i | ABad => ABad
+                 end
+        | _ => ABad
+        end
+    | WStruct fs _ =>
+        match t0 with
+        | TStruct sid =>
+            match lookup_sd env sid with
+            | Some sd =>
+                match apply_init sd prior0 with
+                | VT fs0 h0 =>
+                    match ab_fields (absorb env) sd fs fs0 [] [] with
+                    | AOk (cur, seen, unk) =>
+                        match find (fun i => negb (memN i seen)) (required_ids sd) with
+                        | Some missing => AMissing missing
+                        | None => AOk (VT cur (if sholder sd then match unk with [] => h0 | _ => unk end else h0))
+                        end
+                    | AMismatch => AMismatch | AMissing i => AMissing i | ABad => ABad
+                    end
+                | _ => ABad
+                end
+            | None => ABad
+            end
+        | _ => ABad
+        end
+    | _ => match scalar_of t0 w with Some v => AOk v | None => ABad end
+    end.
+
+(* DecodeObject on a message whose parse is w: the top-level destination is
+   not re-initialised *)
+Definition absorb_top (env : senv) (sid : N) (w : tv) (dst : val) : ares val :=
+  match w, lookup_sd env sid, dst with
+  | WStruct fs _, Some sd, VT fs0 h0 =>
+      match ab_fields (absorb env) sd fs fs0 [] [] with
+      | AOk (cur, seen, unk) =>
+          match find (fun i => negb (memN i seen)) (required_ids sd) with
+          | Some missing => AMissing missing
+          | None => AOk (VT cur (if sholder sd then match unk with [] => h0 | _ => unk end else h0))
+          end
+      | AMismatch => AMismatch | AMissing i => AMissing i | ABad => ABad
+      end
+  | _, _, _ => ABad
+  end.
+
+(* depth budget the decoder needs for w read as type t: one per decodeType
+   call and one per nested Decode call on the deepest path; fields and
+   elements of fixed-size kinds and skipped fields cost nothing here *)
+Section NeedLoops.
+  Variable A : Type.
+  Variable f : A -> nat.
+  Fixpoint need_max (l : list A) : nat :=
+    match l with [] => O | x :: r => Nat.max (f x) (need_max r) end.
+End NeedLoops.
+Arguments need_max {A} f l.
+
+Fixpoint need (env : senv) (t : ty) (w : tv) {struct w} : nat :=
+  let t0 := deref_ty t in
+  if 0 <? fixed_size t0 then O
+  else
+    match w with
+    | WList _ _ es =>
+        match t0 with TList _ e => S (need_max (fun x => need env e x) es) | _ => 1%nat end
+    | WMap _ _ es =>
+        match t0 with
+        | TMap kt vt => S (need_max (fun kv : tv * tv => Nat.max (need env kt (fst kv)) (need env vt (snd kv))) es)
+        | _ => 1%nat
+        end
+    | WStruct fs _ =>
+        match t0 with
+        | TStruct sid =>
+            match lookup_sd env sid with
+            | Some sd =>
+                S (S (need_max (fun fw : N * tv =>
+                                  match get_field sd (fst fw) with
+                                  | Some (_, f) => if wt (fty f) =? code_of (snd fw) then need env (fty f) (snd fw) else O
+                                  | None => O
+                                  end) fs))
+            | None => 1%nat
+            end
+        | _ => 1%nat
+        end
+    | _ => 1%nat
+    end.
+
+(* deepest nesting among the fields the reader skips *)
+Fixpoint skipped_depth (env : senv) (t : ty) (w : tv) {struct w} : nat :=
+  let t0 := deref_ty t in
+  match w with
+  | WList _ _ es => match t0 with TList _ e => need_max (fun x => skipped_depth env e x) es | _ => O end
+  | WMap _ _ es =>
+      match t0 with
+      | TMap kt vt => need_max (fun kv : tv * tv => Nat.max (skipped_depth env kt (fst kv)) (skipped_depth env vt (snd kv))) es
+      | _ => O
+      end
+  | WStruct fs _ =>
+      match t0 with
+      | TStruct sid =>
+          match lookup_sd env sid with
+          | Some sd =>
+              need_max (fun fw : N * tv =>
+                          match get_field sd (fst fw) with
+                          | Some (_, f) => if wt (fty f) =? code_of (snd fw) then skipped_depth env (fty f) (snd fw)
+                                           else S (wdepth (snd fw))
+                          | None => S (wdepth (snd fw))
+                          end) fs
+          | None => O
+          end
+      | _ => O
+      end
+  | _ => O
+  end.
